@@ -253,6 +253,33 @@ pub fn check_looping(code: &[u8]) -> Result<Option<Facts>, Verdict> {
     }))
 }
 
+/// Cumulative minimum gas after each executed instruction of a reference path, in the tool's own accounting: a
+/// taken JUMP lands BEHIND its JUMPDEST (the tool steps past the marker by design), so a JUMPDEST that is
+/// entered by an unconditional jump is not an executed instruction and costs nothing; one that is reached by
+/// falling through, or at which a forked thread starts, is.
+fn path_gas(code: &[u8], p: &crate::ref_evm::PathResult, gas_of: &dyn Fn(u32) -> usize) -> Vec<usize> {
+    let kinds = crate::c10::ref_kinds(code);
+    let mut out = Vec::new();
+    let mut sum = 0usize;
+    // did the previous instruction transfer control by a taken jump?
+    let mut jumped = false;
+    for i in &p.executed {
+        let b = code[*i as usize];
+        let landed = b == 0x5b && jumped;
+        if !landed {
+            sum += gas_of(*i);
+        }
+        out.push(sum);
+        jumped = false;
+        // an unconditional jump moves the running thread behind the marker; a taken JUMPI starts a forked thread AT
+        // the marker, which then executes (and pays for) the JUMPDEST like any instruction
+        if kinds[*i as usize] && b == 0x56 {
+            jumped = true;
+        }
+    }
+    out
+}
+
 /// Gas family: cumulative minimum gas along some reference path exceeds the limit => both modes must fail with
 /// a gas error located inside the code.
 pub fn check_gas(code: &[u8], limit: usize) -> Result<Option<bool>, Verdict> {
@@ -266,8 +293,8 @@ pub fn check_gas(code: &[u8], limit: usize) -> Result<Option<bool>, Verdict> {
     };
     let Ok(thread) = stream.new_thread(0) else { return Ok(None) };
     let gas_of = |i: u32| thread.instruction(i).map(|o| o.min_gas_cost()).unwrap_or(0);
-    let exceeded = x.paths.iter().any(|p| p.executed.iter().map(|i| gas_of(*i)).sum::<usize>() > limit);
-    let within = x.paths.iter().all(|p| p.executed.iter().map(|i| gas_of(*i)).sum::<usize>() <= limit);
+    let exceeded = x.paths.iter().any(|p| path_gas(code, p, &gas_of).into_iter().last().unwrap_or(0) > limit);
+    let within = x.paths.iter().all(|p| path_gas(code, p, &gas_of).into_iter().last().unwrap_or(0) <= limit);
     for permissive in [false, true] {
         let o = match run_vm(code, cfg(permissive, Some(limit)), lazy()) {
             VmRun::Ran(o) => o,
@@ -299,6 +326,30 @@ pub fn check_gas(code: &[u8], limit: usize) -> Result<Option<bool>, Verdict> {
         }
     }
     Ok(Some(exceeded))
+}
+
+/// Every gas limit at which the verdict can change: each cumulative gas value reached after some instruction on
+/// some reference path, and its two neighbours.
+pub fn gas_boundaries(code: &[u8]) -> Vec<usize> {
+    let x = explore(code, false, &Limits::default());
+    let mut out = std::collections::BTreeSet::new();
+    out.insert(GAS_LIMIT);
+    if x.capped || x.loops {
+        return out.into_iter().collect();
+    }
+    let Ok(stream) = sle::disassembly::InstructionStream::try_from(code) else {
+        return out.into_iter().collect();
+    };
+    let Ok(thread) = stream.new_thread(0) else { return out.into_iter().collect() };
+    let gas_of = |i: u32| thread.instruction(i).map(|o| o.min_gas_cost()).unwrap_or(0);
+    for p in &x.paths {
+        for sum in path_gas(code, p, &gas_of) {
+            out.insert(sum.saturating_sub(1));
+            out.insert(sum);
+            out.insert(sum + 1);
+        }
+    }
+    out.into_iter().collect()
 }
 
 pub struct C17;
@@ -360,12 +411,18 @@ impl Check for C17 {
             }
             let code = assemble(&expand(&seq));
             run_one(ctx, "programs", &code, &format!("{seq:?}"));
-            if ix.len() <= 3 {
-                ctx.count("gas_programs", 1);
-                match check_gas(&code, GAS_LIMIT) {
-                    Ok(Some(true)) => ctx.count("gas_exceeded_programs", 1),
-                    Ok(_) => {}
-                    Err(v) => ctx.violation(v.key, format!("{} [{seq:?} = {}]", v.what, hex(&code)), json!({"bytes": hex(&code), "gas_limit": GAS_LIMIT})),
+            if ix.len() <= if tier.thorough() { 4 } else { 3 } {
+                for limit in gas_boundaries(&code) {
+                    ctx.case(|| json!({"bytes": hex(&code), "gas_limit": limit}));
+                    ctx.count("gas_programs", 1);
+                    match check_gas(&code, limit) {
+                        Ok(Some(true)) => ctx.count("gas_exceeded_programs", 1),
+                        Ok(_) => {}
+                        Err(v) => {
+                            ctx.violation(v.key, format!("{} [{seq:?} = {} at gas limit {limit}]", v.what, hex(&code)), json!({"bytes": hex(&code), "gas_limit": limit}));
+                            break;
+                        }
+                    }
                 }
             }
             true
@@ -381,7 +438,7 @@ impl Check for C17 {
                 "all token sequences of length <= {} over {} tokens (stack-underflowing POP/ADD/DUP16/SWAP16, JUMP and JUMPI to valid, \
                  in-push-data, non-JUMPDEST, out-of-range, >=2^32 and symbolic targets, halting instructions), 2 048 loops whose JUMPI target \
                  advances on every iteration (bounded unrolling in the reference), a 1023/1024/1025 x PUSH0 \
-                 prefix family for stack overflow, and a gas-limit-{} family on sequences <= 3. For every loop-free program the \
+                 prefix family for stack overflow, and a gas family on sequences <= 3 (4 in the thorough tier) run at gas limit {} and at EVERY gas limit at which a verdict can change (each cumulative minimum-gas value after some instruction of some reference path, and its two neighbours). For every loop-free program the \
                  reference EVM predicts the error events (class, offset) of all forced-branch paths; strict mode must fail and list \
                  each of them inside the code, permissive mode must fail iff a non-jump event exists, and strict success implies an \
                  equal permissive layout; checked on VM::execute and on analyze(). states = distinct programs with a predicted \
